@@ -645,7 +645,7 @@ def gen_cases(rng, tier):
     # several object classes read from one table (XlsTableReader(r1, ..., rn)): 2-3 rule sets, overlapping / disjoint columns,
     # ranged attributes in one or several of them, the columns of one object next to / inside the would-be range of another
     multi = []
-    for i in range(1500 if big else 170):
+    for i in range(2500 if big else 300):
         force = None
         if i % 5 == 0:
             force = {"ladder": True, "stop": rng.choice(["blank all", "blank all", "blank first"])}
